@@ -293,6 +293,29 @@ def run(ctx):
             for k, detail in problems[:1]:
                 ctx.violation("closure:" + k, witness, detail)
             ctx.count("builds_equal_declared")
+            # a second document extends the built schema: a new type, an extension of that new type and
+            # an extension of the query root, in any order
+            if rng.random() < 0.3 and not with_additional:
+                v3 = copy.deepcopy(view)
+                nt = S.SType("object", "VfAdded", None)
+                nt.fields = [S.SField("added_leaf", S.named("Int")), S.SField("added_extra", S.named("String"))]
+                v3.add(nt)
+                v3.types[v3.query].fields.append(S.SField("vfAdded", S.named("VfAdded")))
+                parts = ["type VfAdded {\n  added_leaf: Int\n}\n", "extend type VfAdded {\n  added_extra: String\n}\n",
+                         "extend type %s {\n  vfAdded: VfAdded\n}\n" % v3.query]
+                rng.shuffle(parts)
+                ext_text = "\n".join(parts)
+                w3 = dict(witness, extension_document=ext_text)
+                ctx.evaluated()
+                ctx.count("second_document_extensions")
+                try:
+                    extended = py_gql.sdl.extend_schema(schema, ext_text)
+                except Exception as e:
+                    ctx.violation("second-document:raises:%s" % type(e).__name__, w3, repr(e)[:300])
+                else:
+                    d3 = canon.diff(canon.canon_schema(extended), canon.canon_ir(v3))
+                    if d3:
+                        ctx.violation("second-document:content:%s" % canon.diff_key(d3), w3, "at %s built=%s declared=%s" % d3)
             # ignore_extensions: equals building the document without its extension blocks
             if info["extensions"] and rng.random() < 0.5 and not hostile and not early_default:
                 blocks = [b for b in text.split("\n\n") if not b.lstrip().startswith("extend ")]
